@@ -78,6 +78,11 @@ pub fn offer_coords(o: &Offer) -> (BigUint, BigUint) {
             let p = pt(s);
             (f.neg(&p.x), f.neg(&p.y))
         }
+        Offer::Scaled(s, l) => {
+            let p = pt(s);
+            let l = BigUint::from(*l);
+            (f.mul(&p.x, &l), f.mul(&p.y, &l))
+        }
         Offer::T2 => (BigUint::from(0u32), f.neg(&BigUint::from(1u32))),
         Offer::Zero00 => (BigUint::from(0u32), BigUint::from(0u32)),
     }
